@@ -105,7 +105,7 @@ def build_alphabet(lab, which=0):
         al["A"] = anc[2]     # the folder above the task (an open, possibly dotted, name)
         # two siblings of it whose names start with a dot ("hidden" folders are folders)
         pa = anc[2].split("/")
-        for hk, hn in (("H1", ".hid1"), ("H2", ".hid2")):
+        for hk, hn in (("H1", ".hid1"), ("H2", ".hid2"), ("H3", ".x.data.json")):      # (H3: a folder NAMED like a data sidecar is a folder)
             h = "/".join(pa[:-1] + [hn])
             if model.natural(h) is model.natural(anc[2]):
                 al[hk] = h
